@@ -27,6 +27,7 @@ RULES = {
     "R-C18-b": "pair-format validity = ~(mask at which the sentinel is written), for every array-cube-only statistic",
     "R-C18-c": "invalid rows are NaN-seeded in the constructor (validity = fact AND weight validity); ignore_missing selects valid rows / uses the NaN-aware routine",
     "R-C18-d": "each statistic delegates to the documented NumPy routine with the documented arguments",
+    "R-C18-e": "weighted quantile under propagation: the result depends on every row of the segment through a whole-array NaN test / NaN-propagating reduction, not only through the few elements it selects",
 }
 
 
@@ -153,15 +154,62 @@ def rule_d(prog, rep):
                   witness={"inputs": "two rows 1 and 3: 1.414 expected"})
 
 
+def rule_e(prog, rep):
+    """A missing (NaN) value sorts to the end of the segment; a result assembled only from selected elements
+    (a[left], xdiff[left]) never sees it unless the quantile happens to land there."""
+    m = AT.model(prog, "xfuncs", "xfunc_quantile", aggr.Config(weights="array", ignore=False))
+    fi, I, fr = m.run("weighted_quantile")
+    where = fi.fq
+    rets = [ev for ev in I.events if ev.kind == "return" and ev.stack and not tm.is_const(ev["value"])]
+    rets = [ev for ev in rets if not (ev["value"].op == "call" and tm.callee_name(ev["value"]) == "builtins.float")]
+    rets = [ev for ev in rets if tm.contains(ev["value"], lambda x: x.op == "slice1d")]
+    if not rets:
+        rep.undecided("R-C18-e", where, "weighted quantile kernel", "per-column kernel not found (not called through numpy.apply_along_axis with a local function)")
+        return
+    for ev in rets:
+        v = ev["value"]
+        leaf = [x for x in tm.walk(v) if x.op == "slice1d"][0]
+
+        def whole_array_test(t):
+            """isnan(<a>) reduced by any()/sum(), or a NaN-propagating reduction of <a>, anywhere in t"""
+            for x in tm.walk(t):
+                if x.op == "call":
+                    nm = tm.callee_name(x) or ""
+                    if nm in ("numpy.any", "numpy.sum", ".any", ".sum", "numpy.max", "numpy.min", "numpy.mean") and tm.contains(x, lambda y: y == leaf):
+                        inner = x.args[1][0] if x.args[1] else x.args[0].args[0]
+                        if nm in ("numpy.any", ".any"):
+                            if tm.contains(inner, lambda y: y.op == "call" and tm.callee_name(y) == "numpy.isnan" and tm.contains(y, lambda z: z == leaf)):
+                                return True
+                        else:
+                            return True
+                if x.op == "sub" and tm.contains(x.args[0], lambda y: y == leaf) and tm.is_const(x.args[1], -1):
+                    # a[-1] of the sorted segment: NaN sorts last
+                    if any(c.op == "call" and tm.callee_name(c) == "numpy.isnan" for c in [t]):
+                        return True
+            return False
+
+        guarded = any(whole_array_test(c) for c, pol in ev.guards)
+        gather_only = True
+        for x in tm.walk(v):
+            if x.op == "call" and (tm.callee_name(x) or "") in ("numpy.sum", ".sum", "numpy.nansum", "numpy.mean", "numpy.max", "numpy.min") and tm.contains(x, lambda y: y == leaf):
+                gather_only = False
+        ok = guarded or not gather_only
+        rep.check(ok, "R-C18-e", "%s@%d" % (where, ev.line), "weighted quantile, propagate: result sees every row of the segment",
+                  "a whole-array missing test dominates the result" if guarded else "NaN-propagating reduction",
+                  "the result is assembled from selected elements only (a[left] + frac * xdiff[left]) and no any-missing test precedes it: a missing value that sorts beyond the quantile is ignored although missing values must propagate",
+                  witness={"inputs": "quantile([1, 2, nan], 0.1, weights=[1, 1, 1]) -> 1.0; the unweighted call returns nan"})
+
+
 def main(tier):
     rep = core.Report("C18", level="other", rules=RULES, tier=tier,
-                      declined="per-cell numerical equality with the textbook statistic (floating-point values); the weighted quantile's treatment of a missing value that sorts beyond the quantile (a value-level defect: quantile([1,2,nan], 0.1, weights=[1,1,1]) -> 1.0 under propagation) is not decided")
+                      declined="per-cell numerical equality with the textbook statistic (floating-point values)")
     rep.trusted_base = ["CPython ast", "symbolic walker + configuration oracle", "aggregate algebra normaliser", "NumPy: quantile/corrcoef/cov/amin/amax propagate NaN; nanquantile ignores NaN"]
     prog = Program()
     rule_a(prog, rep)
     rule_b(prog, rep)
     rule_c(prog, rep)
     rule_d(prog, rep)
+    rule_e(prog, rep)
     return rep.finish()
 
 
